@@ -120,7 +120,11 @@ let holds _args case impl =
     let g_valid = contains_name (field mline "verd") "G:w=ok" in
     let in_pool = contains_name (field impl "pool") "G" in
     let later_confirmed = confirmed_g in
-    if Model.holds_c64 ah_before asked_ok (g_valid && not later_confirmed) in_pool then "ok"
+    (* the genuine txid must not be in the reject filter while the genuine transaction is neither in the mempool nor
+       confirmed (a copy's failure must not be recorded under the txid: parents are fetched by txid) *)
+    let txid_rejected = contains_name (field impl "rej") "G:t" && not in_pool && not confirmed_g in
+    if txid_rejected then "fail genuine-txid-in-reject-filter-because-of-a-copy"
+    else if Model.holds_c64 ah_before asked_ok (g_valid && not later_confirmed) in_pool then "ok"
     else if ah_before then "fail genuine-wtxid-reported-as-already-known"
     else if not asked_ok then "fail genuine-not-requested-after-honest-announcement"
     else "fail genuine-valid-but-not-accepted"
